@@ -1,8 +1,17 @@
 //! Differential / search harness for the image-webp verification framework (see /verif/DESIGN.md).
 //! usage: harness <check> <tier: quick|thorough> <seed> <outdir> [extra...]
 mod util;
+#[allow(dead_code)]
+mod mux;
+#[allow(dead_code)]
+mod lw;
+#[allow(dead_code)]
+mod corpus;
 mod c12;
 mod c13;
+mod c10;
+mod c11;
+mod c03;
 
 fn main() {
     let args: Vec<String> = std::env::args().collect();
@@ -11,7 +20,7 @@ fn main() {
         std::process::exit(2);
     }
     // panics inside the implementation are caught per case; keep the default hook quiet
-    std::panic::set_hook(Box::new(|_| {}));
+    util::install_hook();
     let tier = args[2].as_str();
     let seed: u64 = args[3].parse().unwrap_or(1);
     let out = args[4].as_str();
@@ -19,6 +28,9 @@ fn main() {
     match args[1].as_str() {
         "c12" => c12::run(tier, seed, out, extra),
         "c13" => c13::run(tier, seed, out, extra),
+        "c10" => c10::run(tier, seed, out, extra),
+        "c11" => c11::run(tier, seed, out, extra),
+        "c03" => c03::run(tier, seed, out, extra),
         other => {
             eprintln!("unknown check {other}");
             std::process::exit(2);
